@@ -445,4 +445,20 @@ theorem put_refuses_entry (cfg : Cfg) (fs : FS) (n key : Bytes) (hn : ValidName 
     simp only [fsStep, encodeName_eq n hn.1, FS.createExcl, entry_touch, not_too_long cfg n hn, if_false, hent]
     exact ⟨trivial, rfl, rfl⟩
 
+/-- after a successful `Put` the entry under the key's file name is the key file just written -/
+theorem entry_after_put (cfg : Cfg) (fs : FS) (n key : Bytes) (hn : ValidName cfg n)
+    (hok : (fsStep cfg fs (.put n key)).2 = .ok) :
+    (fsStep cfg fs (.put n key)).1.entry (join cfg.dir (encName n)) = some (.file key true) := by
+  simp only [fsStep, encodeName_eq n hn.1, FS.createExcl, entry_touch, not_too_long cfg n hn, if_false] at hok ⊢
+  cases hent : fs.entry (join cfg.dir (encName n)) with
+  | some f => simp [hent] at hok
+  | none =>
+    simp only [hent]
+    have hfor : AMap.find fs.foreign (join cfg.dir (encName n)) = none := by
+      unfold FS.entry at hent
+      cases hf : AMap.find fs.foreign (join cfg.dir (encName n)) with
+      | none => rfl
+      | some f => simp [hf] at hent
+    simp [FS.entry, FS.touch, hfor, AMap.find_insert_self]
+
 end C40
